@@ -93,6 +93,10 @@ def run(ctx):
     # "regression data [is rewarded] by the negative absolute error" of the label AS GIVEN
     from . import c06
     c06.r15_reward_constructors(ctx, rule="C14.R13")
+    # "the same holds end-to-end when the data comes from a CSV ... source": cells arrive as written (a reader-side default such as skipinitialspace merges the labels 'a' and ' a')
+    from . import c12
+    c12.r7_csv_dialect(ctx, rule="C14.R14")
+    r15_constructor_forwards(ctx)
 
 
 def _final_loops(fn):
@@ -206,6 +210,29 @@ def r5_take(ctx, init):
 
 PRIM = "coba/primitives.py"
 RDR = "coba/pipes/readers.py"
+ENVC = "coba/environments/core.py"
+
+
+def r15_constructor_forwards(ctx, rule="C14.R15"):
+    """`take` has to reach SupervisedSimulation: there the sample is drawn BEFORE the distinct labels are collected, so the action set is the label set of the
+    sample.  A wrapper that keeps `take` back and samples the finished simulation offers every label of the whole file."""
+    ctx.rule(rule, "Environments.from_supervised hands its arguments to SupervisedSimulation as given: the call forwards the wrapper's own *args and **kwargs, neither of which is "
+                   "re-bound, popped from or sliced before the call, and nothing is applied to the simulation afterwards")
+    fn = ctx.fn(ENVC, "Environments.from_supervised")
+    VA, KW = (fn.args.vararg.arg if fn.args.vararg else None), (fn.args.kwarg.arg if fn.args.kwarg else None)
+    calls = [c for c in ast.walk(fn) if isinstance(c, ast.Call) and call_name(c) == "SupervisedSimulation"]
+    ctx.floor(rule, "SupervisedSimulation(...) constructions in Environments.from_supervised", len(calls), 1)
+    touched = [x for x in ast.walk(fn) if (isinstance(x, (ast.Assign, ast.AugAssign, ast.Delete)) and any(isinstance(n_, ast.Name) and n_.id in (VA, KW) and isinstance(n_.ctx, (ast.Store, ast.Del))
+                                                                                                             for t in (x.targets if not isinstance(x, ast.AugAssign) else [x.target]) for n_ in ast.walk(t)))
+               or (isinstance(x, ast.Call) and isinstance(x.func, ast.Attribute) and isinstance(x.func.value, ast.Name) and x.func.value.id in (VA, KW) and x.func.attr in ("pop", "popitem", "clear", "update", "setdefault"))
+               or (isinstance(x, (ast.Assign, ast.Delete)) and any(isinstance(t, ast.Subscript) and isinstance(t.value, ast.Name) and t.value.id in (VA, KW) for t in x.targets))]
+    for c in calls:
+        fwd = [unparse(a) for a in c.args] == [f"*{VA}"] and [(k.arg, unparse(k.value)) for k in c.keywords] == [(None, KW)]
+        ctx.ob(rule, ENVC, "Environments.from_supervised", c, "SupervisedSimulation receives the wrapper's *args and **kwargs unchanged", fwd and not touched,
+               detail={"call": unparse(c), "rebinds": [unparse(t)[:60] for t in touched]})
+    rets = [r for r in ast.walk(fn) if isinstance(r, ast.Return) and r.value is not None]
+    post = [r for r in rets if any(isinstance(c, ast.Call) and isinstance(c.func, ast.Attribute) and c.func.attr in ("reservoir", "take", "filter", "slice", "shuffle", "where") for c in ast.walk(r.value))]
+    ctx.ob(rule, ENVC, "Environments.from_supervised", (post or rets or [fn])[0], "the environments are returned as built (no sampling or other filter applied behind the simulation)", not post, stmt="from_supervised returns as built")
 
 
 def r7_reward_definitions(ctx, fn):
@@ -384,6 +411,9 @@ def r9_label_key_domain(ctx):
 
 
 CONTROLS = [
+    ("CsvReader drops blanks behind delimiters by default", RDR, M.replace_stmt("CsvReader.__init__", M.text_has("self._dialect ="), "self._dialect = {'skipinitialspace': True, **dialect}"), "C14.R14"),
+    ("from_supervised samples the finished simulation", ENVC, M.replace_stmt("Environments.from_supervised", lambda st: isinstance(st, ast.Return),
+        "take = kwargs.pop('take', None)\nenvs = Environments(SupervisedSimulation(*args, **kwargs))\nreturn envs if take is None else envs.reservoir(take)"), "C14.R15"),
     ("regression labels coerced to float", PRIM, M.replace_expr("L1Reward.__init__", "argmax if not hasattr(argmax, 'ndim') else argmax.item()", "float(argmax if not hasattr(argmax, 'ndim') else argmax.item())"), "C14.R13"),
     ("HammingReward iterates whatever action it gets", PRIM, M.delete_stmt("HammingReward.__call__", M.text_has("comparable = [comparable]")), "C14.R7"),
     ("negative label positions reach DropOne", ROWS, M.delete_stmt("LabelRows.filter", M.text_has("ind += len(first)")), "C14.R11"),
